@@ -6,14 +6,18 @@
    * ensure_heap_capacity(additional): used = heap.checked_add(manual)?; total = used.checked_add(additional)?;
      total <= max                                                            [runtime/src/vm/alloc.rs]
    * alloc_string(&str): the host string exists already (the caller built it); check; heap.alloc_string
-   * alloc_array(AelysArray): the array EXISTS already (dispatch builds AelysArray::new_*(count) first, with
-     count = as_int().unwrap_or(0) as usize); check(size_bytes); alloc_object: check(estimate); charge
-   * VecPush / VecReserve: Vec growth on the host, no check, the charge made at creation is never updated;
-     sweep subtracts the CURRENT estimate (saturating)
+   * ArrayNew*: VM::checked_array_len validates the count and consults the limit, THEN AelysArray::new_*(count);
+     alloc_array: check(size_bytes); alloc_object: check(estimate); charge
+     (before the repair: the array was built first, with count = as_int().unwrap_or(0) as usize)
+   * VecPush / VecReserve: VM::vec_reserve_checked computes the growth, checks it, grows with reserve_exact and
+     records it (Heap::account_growth); sweep subtracts the CURRENT estimate (saturating), which now equals
+     what has been charged (before the repair: growth was unchecked and unaccounted)
    * manual_alloc(size): checked_mul(8); check; ManualHeap::alloc (size == 0 -> InvalidSize; vec![null; size]); charge
    * bytes.alloc(size): size <= 0 or size > MAX_ALLOC -> error; host allocation; never charged
-   * string.repeat(s, n): n <= 0 -> ""; s.repeat(n as usize) on the host; then make_string -> check
-   * string.pad_left/right(s, width, c): width as usize; repeat_n(c, width - chars).collect(); format!(); then check *)
+   * string.repeat(s, n): n <= 0 -> ""; len * n checked; VM::check_string_capacity; then s.repeat(n) on the host;
+     make_string -> check, charge
+   * string.pad_left/right(s, width, c): width <= chars (or negative) -> s; resulting length checked first; then
+     repeat_n(c, width - chars).collect(); format!(); make_string   (before the repair of both: host string first) *)
 From Coq Require Import NArith ZArith Bool List.
 From Aelys Require Import Extracted.HeapConsts.
 Import ListNotations.
@@ -73,34 +77,50 @@ Definition op_bytes (cap : N) (m : mem) (n : Z) : res * mem * list evt :=
   else if MAX_ALLOC <? Z.to_N n then (RTypeErr, m, [])
   else if host_ok cap (Z.to_N n) then (ROk, m, [EHost (Z.to_N n)]) else (RAbort, m, [EHost (Z.to_N n)]).
 
-(* ---- unguarded / late-checked primitives *)
-Definition op_array (cap : N) (esz : N) (m : mem) (count : Z) : res * mem * list evt :=
-  let len := usize_of count in
-  let bytes := len * esz in
-  if ISIZE_MAX <? bytes then (RPanic, m, [])                      (* vec![x; len]: "capacity overflow" *)
-  else if negb (host_ok cap bytes) then (RAbort, m, [EHost bytes])
-  else let size := SZ_ARRAY + bytes in
-       if ensure m size then (ROk, add_heap m size, [EHost bytes; ECheck size true; ECheck size true; ECharge size])
-       else (ROom, m, [EHost bytes; ECheck size false]).
+(* ---- primitives that were unguarded / late-checked before the repairs (KF-C10-1..5); now the size is
+   validated and the limit consulted before any storage is built *)
 
+(* ArrayNew*: VM::checked_array_len -- negative -> TypeError; size_of::<AelysArray>() + count * elem with
+   checked arithmetic must pass ensure_heap_capacity; only then AelysArray::new_*(count), alloc_array
+   (check), alloc_object (check), charge *)
+Definition op_array (cap : N) (esz : N) (m : mem) (count : Z) : res * mem * list evt :=
+  if (count <? 0)%Z then (RTypeErr, m, [])
+  else let bytes := Z.to_N count * esz in
+       let size := SZ_ARRAY + bytes in
+       if U64 <=? size then (ROom, m, [])
+       else if ensure m size then
+              if host_ok cap bytes then (ROk, add_heap m size, [ECheck size true; EHost bytes; ECheck size true; ECheck size true; ECharge size])
+              else (RAbort, m, [ECheck size true; EHost bytes])
+            else (ROom, m, [ECheck size false]).
+
+(* a vec: length, capacity (in elements of 8 bytes) and what the heap has been charged for it *)
 Record vecst := mkVec { vlen : N; vcap : N; vcharged : N }.
 Definition vec_bytes (v : vecst) : N := SZ_VEC + vcap v * SZ_VALUE.
-(* RawVec::grow_amortized for 8-byte elements *)
-Definition grow (cap required : N) : N := N.max 4 (N.max (2 * cap) required).
-Definition op_vec_push (cap : N) (m : mem) (v : vecst) : res * mem * vecst * list evt :=
-  if vlen v <? vcap v then (ROk, m, mkVec (vlen v + 1) (vcap v) (vcharged v), [])
-  else let nc := grow (vcap v) (vlen v + 1) in
-       if ISIZE_MAX <? nc * SZ_VALUE then (RPanic, m, v, [])
-       else if host_ok cap (nc * SZ_VALUE) then (ROk, m, mkVec (vlen v + 1) nc (vcharged v), [EHost (nc * SZ_VALUE)])
-       else (RAbort, m, v, [EHost (nc * SZ_VALUE)]).
-Definition op_vec_reserve (cap : N) (m : mem) (v : vecst) (additional : Z) : res * mem * vecst * list evt :=
-  let add := usize_of additional in
+Definition USIZE_MAX : N := U64 - 1.
+(* VM::vec_reserve_checked: the growth is computed first (amortised doubling, or the exact need when the
+   doubling does not fit), checked, performed with reserve_exact and recorded with Heap::account_growth *)
+Definition vec_grow (cap : N) (m : mem) (v : vecst) (add : N) : res * mem * vecst * list evt :=
   if add <=? vcap v - vlen v then (ROk, m, v, [])
-  else if U64 <=? vlen v + add then (RPanic, m, v, [])
-  else let nc := grow (vcap v) (vlen v + add) in
-       if ISIZE_MAX <? nc * SZ_VALUE then (RPanic, m, v, [])
-       else if host_ok cap (nc * SZ_VALUE) then (ROk, m, mkVec (vlen v) nc (vcharged v), [EHost (nc * SZ_VALUE)])
-       else (RAbort, m, v, [EHost (nc * SZ_VALUE)]).
+  else if USIZE_MAX <? vlen v + add then (ROom, m, v, [])
+  else let required := vlen v + add in
+       let amortised := N.max required (N.max (2 * vcap v) 4) in
+       let bytes_of (nc : N) := (nc - vcap v) * SZ_VALUE in
+       let finish (nc : N) :=
+         if host_ok cap (nc * SZ_VALUE)
+         then (ROk, add_heap m (bytes_of nc), mkVec (vlen v) nc (vcharged v + bytes_of nc),
+               [ECheck (bytes_of nc) true; EHost (nc * SZ_VALUE); ECharge (bytes_of nc)])
+         else (RAbort, m, v, [ECheck (bytes_of nc) true; EHost (nc * SZ_VALUE)]) in
+       if (bytes_of amortised <? U64) && ensure m (bytes_of amortised) then finish amortised
+       else if U64 <=? bytes_of required then (ROom, m, v, [])
+       else if ensure m (bytes_of required) then finish required
+       else (ROom, m, v, [ECheck (bytes_of required) false]).
+Definition op_vec_push (cap : N) (m : mem) (v : vecst) : res * mem * vecst * list evt :=
+  match vec_grow cap m v 1 with
+  | (ROk, m', v', t) => (ROk, m', mkVec (vlen v' + 1) (vcap v') (vcharged v'), t)
+  | r => r
+  end.
+Definition op_vec_reserve (cap : N) (m : mem) (v : vecst) (additional : Z) : res * mem * vecst * list evt :=
+  if (additional <? 0)%Z then (RTypeErr, m, v, []) else vec_grow cap m v (Z.to_N additional).
 Fixpoint push_many (fuel : nat) (cap : N) (m : mem) (v : vecst) : res * mem * vecst :=
   match fuel with
   | O => (ROk, m, v)
@@ -110,28 +130,28 @@ Fixpoint push_many (fuel : nat) (cap : N) (m : mem) (v : vecst) : res * mem * ve
            end
   end.
 
-(* interned: true when the result is a string that already exists (no allocation at all) *)
+(* string.repeat: n <= 0 -> ""; len * n with checked arithmetic; VM::check_string_capacity; then s.repeat(n)
+   on the host; make_string (intern_string: check again, charge) *)
 Definition op_repeat (cap : N) (m : mem) (slen : N) (n : Z) : res * mem * list evt :=
   if (n <=? 0)%Z then op_string m 0
-  else let total := slen * usize_of n in
-       if ISIZE_MAX <? total then (RPanic, m, [])
-       else if negb (host_ok cap total) then (RAbort, m, [EHost total])
+  else let total := slen * Z.to_N n in
+       if ISIZE_MAX <? total then (ROom, m, [])
        else let size := SZ_STRING + total in
-            if ensure m size then (ROk, add_heap m size, [EHost total; ECheck size true; EHost total; ECharge size])
-            else (ROom, m, [EHost total; ECheck size false]).
-(* pad_left: format!("{}{}", padding, s) -- the buffer holds the padding exactly, pushing s doubles it (grow_amortized);
-   pad_right: format!("{}{}", s, padding) -- one growth to the exact size.  `need` = host bytes live at the peak. *)
-Definition op_pad (left : bool) (cap : N) (m : mem) (slen : N) (width : Z) : res * mem * list evt :=
-  let w := usize_of width in
-  if w <=? slen then (ROk, m, [])                                  (* make_string(s): already interned *)
-  else let pad := w - slen in
-       let need := if left then 3 * pad else pad + w in
-       if ISIZE_MAX <? pad then (RPanic, m, [])
-       else if negb (host_ok cap pad) then (RAbort, m, [EHost pad])
-       else if negb (host_ok cap need) then (RAbort, m, [EHost pad; EHost w])
+            if ensure m size then
+              if host_ok cap total then (ROk, add_heap m size, [ECheck size true; EHost total; ECheck size true; EHost total; ECharge size])
+              else (RAbort, m, [ECheck size true; EHost total])
+            else (ROom, m, [ECheck size false]).
+(* string.pad_left / pad_right (one-byte pad character): a width that is not larger than the string
+   (or negative) returns the string itself; otherwise the resulting length is checked first *)
+Definition op_pad (cap : N) (m : mem) (slen : N) (width : Z) : res * mem * list evt :=
+  if (width <=? 0)%Z || (Z.to_N width <=? slen) then (ROk, m, [])        (* make_string(s): already interned *)
+  else let w := Z.to_N width in
+       if ISIZE_MAX <? w then (ROom, m, [])
        else let size := SZ_STRING + w in
-            if ensure m size then (ROk, add_heap m size, [EHost pad; EHost w; ECheck size true; EHost w; ECharge size])
-            else (ROom, m, [EHost pad; EHost w; ECheck size false]).
+            if ensure m size then
+              if host_ok cap (3 * w) then (ROk, add_heap m size, [ECheck size true; EHost (w - slen); EHost w; ECheck size true; EHost w; ECharge size])
+              else (RAbort, m, [ECheck size true; EHost (w - slen)])
+            else (ROom, m, [ECheck size false]).
 
 (* s = s + s, k times, no collection in between (valid while the heap stays below the GC threshold) *)
 Fixpoint concat_double (fuel : nat) (m : mem) (len : N) : res * mem :=
@@ -155,15 +175,23 @@ Fixpoint check_first (t : list evt) : bool :=
 Fixpoint host_total (t : list evt) : N :=
   match t with [] => 0 | EHost n :: r => n + host_total r | _ :: r => host_total r end.
 
-(* ---- histories of guarded operations *)
-Inductive gop := GStr (len : N) | GObj (size : N) | GManual (n : Z) | GManualFree (bytes : N) | GSweep (size : N).
-Definition gstep (m : mem) (o : gop) : res * mem * list evt :=
+(* ---- histories: every allocating primitive *)
+Inductive gop := GStr (len : N) | GObj (size : N) | GManual (n : Z) | GManualFree (bytes : N) | GSweep (size : N)
+               | GArray (esz : N) (count : Z) | GVecPush (v : vecst) | GVecReserve (v : vecst) (additional : Z)
+               | GRepeat (slen : N) (n : Z) | GPad (slen : N) (width : Z) | GBytes (n : Z).
+Definition gstep (cap : N) (m : mem) (o : gop) : res * mem * list evt :=
   match o with
   | GStr len => op_string m len
   | GObj size => op_object m size
   | GManual n => op_manual m n
   | GManualFree b => (ROk, op_manual_free m b, [])
   | GSweep s => (ROk, op_sweep m s, [])
+  | GArray e n => op_array cap e m n
+  | GVecPush v => let '(r, m', _, t) := op_vec_push cap m v in (r, m', t)
+  | GVecReserve v a => let '(r, m', _, t) := op_vec_reserve cap m v a in (r, m', t)
+  | GRepeat sl n => op_repeat cap m sl n
+  | GPad sl w => op_pad cap m sl w
+  | GBytes n => op_bytes cap m n
   end.
-Fixpoint grun (m : mem) (h : list gop) : mem :=
-  match h with [] => m | o :: r => grun (snd (fst (gstep m o))) r end.
+Fixpoint grun (cap : N) (m : mem) (h : list gop) : mem :=
+  match h with [] => m | o :: r => grun cap (snd (fst (gstep cap m o))) r end.
